@@ -41,8 +41,13 @@ pub fn compute_min_utxo(
     let index = coercion::expr_into_number(&x)?;
     let overhead = 160;
 
-    let total_bytes = if let Some(body) = tx_body {
-        let utxo = body.outputs.get(index as usize).unwrap();
+    // the previous body may belong to another transaction (the compiler instance is reused), in
+    // which case it may not have this output: fall back to the default estimate
+    let previous_output = tx_body
+        .as_ref()
+        .and_then(|body| usize::try_from(index).ok().and_then(|i| body.outputs.get(i)));
+
+    let total_bytes = if let Some(utxo) = previous_output {
         let bytes = pallas::codec::minicbor::to_vec(utxo).unwrap().len() as i128;
         bytes + overhead
     } else {
